@@ -161,3 +161,159 @@ def poison_corpus():
         sc["script"] = [{"op": "raw", "body": body}]
         out.append(sc)
     return out
+
+# ------------------------------------------------------------------------------------------------------
+# Families for the schedule-quantified properties (C02, C05, C06, C09, C11).  Every Task has its own function queue
+# (or is keyed by its payload) so that a worker's reply depends on (payload, attempt) only, never on arrival order.
+
+def multi(name, machines, starts, workers=None, family=None, **kw):
+    sc = {"name": name, "family": family or name, "machines": machines, "workers": workers or {}, "starts": starts}
+    sc.update(kw)
+    return sc
+
+def seq_family(tier="quick"):
+    out = []
+    Z = ("Z", Pass())
+    d1 = chain(("A", Pass(Result=1, ResultPath="$.a")), ("C", Choice([{"Variable": "$.a", "NumericEquals": 1, "Next": "W"}], default="Z")),
+               ("W", Wait(1)), ("T", Task("f1")), Z)
+    out.append(scenario("seq-chain", d1, workers={"f1": {"*": OK({"r": 1})}}, input={"x": 0}, family="seq-chain"))
+    dt = chain(("T", Task("f1")), Z)
+    out.append(multi("seq-two-exec-one-machine", {"m": {"definition": dt}},
+                     [{"machine": "m", "name": "e1", "input": {"k": 1}}, {"machine": "m", "name": "e2", "input": {"k": 2}}],
+                     workers={"f1": {"*": [["echo"]]}}))
+    dw = chain(("W", Wait(2)), Z)
+    out.append(multi("seq-wait-and-task", {"m": {"definition": dt}, "n": {"definition": dw}},
+                     [{"machine": "m", "name": "e1", "input": {"k": 1}}, {"machine": "n", "name": "e2", "input": {"k": 2}}],
+                     workers={"f1": {"*": [["echo"]]}}))
+    out.append(scenario("seq-retry-ok", chain(("T", Task("f1", Retry=[{"ErrorEquals": ["E1"], "IntervalSeconds": 1, "MaxAttempts": 2}])), Z),
+                        workers={"f1": {"*": [["err", "E1", "x"], ["ok", 3]]}}, family="seq-retry-ok"))
+    out.append(scenario("seq-retry-exhausted", chain(("T", Task("f1", Retry=[{"ErrorEquals": ["E1"], "IntervalSeconds": 1, "MaxAttempts": 1}])), Z),
+                        workers={"f1": {"*": ERR()}}, family="seq-retry-exhausted"))
+    out.append(scenario("seq-catch", chain(("T", Task("f1", Catch=CATCH_ALL)), Z), workers={"f1": {"*": ERR()}}, family="seq-catch"))
+    out.append(scenario("seq-timeout", chain(("T", Task("f1", TimeoutSeconds=3)), Z), workers={"f1": {"*": NONE}}, family="seq-timeout"))
+    out.append(scenario("seq-task-timeout-late-reply", chain(("T", Task("f1", TimeoutSeconds=3, Catch=CATCH_ALL)), ("Z", Task("f2"))),
+                        workers={"f1": {"*": NONE}, "f2": {"*": OK(1)}}, family="seq-task-timeout-caught"))
+    dp = chain(("A", Pass(Result=1, ResultPath="$.a")), Z)
+    out.append(multi("seq-three-pass", {"m": {"definition": dp}},
+                     [{"machine": "m", "name": "e%d" % i, "input": {"i": i}} for i in (1, 2, 3)]))
+    out.append(scenario("seq-express", chain(("T", Task("f1")), Z), workers={"f1": {"*": OK(1)}}, typ="EXPRESS", family="seq-express"))
+    out.append(scenario("seq-fail", chain(("A", Pass()), ("F", Fail())), family="seq-fail"))
+    # a raw start event as an external client would publish it (no Execution fields)
+    sc = scenario("seq-raw-start", dt, workers={"f1": {"*": OK(1)}}, family="seq-raw-start")
+    sc["starts"] = []
+    sc["script"] = [{"op": "raw", "body": '{"data": {"k": 1}, "context": {"StateMachine": {"Id": "' + sm_arn("m") + '"}}}'}]
+    out.append(sc)
+    # async child launch
+    child = chain(("CA", Task("f2")), ("CZ", Pass()))
+    parent = chain(("L", {"Type": "Task", "Resource": "arn:aws:states:local::states:startExecution",
+                          "Parameters": {"StateMachineArn": sm_arn("c"), "Input": {"from": "parent"}, "Name": "child1"}}), Z)
+    out.append(multi("seq-async-child", {"m": {"definition": parent}, "c": {"definition": child}},
+                     [{"machine": "m", "name": "e1", "input": {}}], workers={"f2": {"*": OK("c")}}))
+    return out
+
+def _branch(prefix, n, kind="task"):
+    """A branch of n states; Task states get their own function f_<name>."""
+    sts = []
+    for i in range(n):
+        nm = "%s%d" % (prefix, i + 1)
+        if kind == "task":
+            sts.append((nm, Task("f_" + nm)))
+        elif kind == "pass":
+            sts.append((nm, Pass(Result=nm)))
+        elif kind == "wait":
+            sts.append((nm, Wait(1 + i)))
+    return chain(*sts)
+
+def _okworkers(defn, override=None):
+    w = {}
+    def rec(x):
+        if isinstance(x, dict):
+            if x.get("Type") == "Task" and str(x.get("Resource", "")).startswith("arn:aws:rpcmessage"):
+                f = x["Resource"].rsplit(":", 1)[-1]
+                w[f] = {"*": [["ok", {"from": f}]]}
+            for v in x.values():
+                rec(v)
+        elif isinstance(x, list):
+            for v in x:
+                rec(v)
+    rec(defn)
+    w.update(override or {})
+    return w
+
+def fanout_ok_family(tier="quick"):
+    out = []
+    Z = ("Z", Pass())
+    def add(name, d, inp=None, workers=None, **kw):
+        sc = scenario(name, d, workers=_okworkers(d, workers), input=inp, family=name, requests_once=True, **kw)
+        out.append(sc)
+    add("par-2x1", chain(("P", Parallel([_branch("A", 1), _branch("B", 1)])), Z))
+    add("par-2x1-end", chain(("P", Parallel([_branch("A", 1), _branch("B", 1)]))))
+    add("par-2x2", chain(("P", Parallel([_branch("A", 2), _branch("B", 2)])), Z))
+    add("par-3x1", chain(("P", Parallel([_branch("A", 1), _branch("B", 1), _branch("C", 1)], ResultPath="$.r")), Z), inp={"k": 1})
+    add("par-mixed", chain(("P", Parallel([_branch("A", 1), _branch("B", 1, "wait"), _branch("C", 1, "pass")],
+                                          ResultSelector={"a.$": "$[0]", "c.$": "$[2]"})), Z))
+    it = chain(("I", Task("fi")))
+    echo = {"fi": {"*": [["echo"]]}}
+    for n in ((0, 1, 2, 3) if tier == "quick" else (0, 1, 2, 3, 4)):
+        for mc in range(0, n + 2):
+            if tier == "quick" and n == 3 and mc in (3,):
+                continue
+            items = [10 * (i + 1) for i in range(n)]
+            st = Map(it, MaxConcurrency=mc) if mc else Map(it)
+            add("map-n%d-mc%d" % (n, mc), chain(("M", st), Z), inp=items, workers=echo, maxc={"fi": mc or max(n, 1)})
+    add("map-2-tasks-2", chain(("M", Map(chain(("I1", Task("fi")), ("I2", Task("fj"))))), Z), inp=[1, 2], workers={"fi": {"*": [["echo"]]}, "fj": {"*": [["echo"]]}})
+    add("par-in-map", chain(("M", Map(chain(("P", Parallel([_branch("A", 1), _branch("B", 1, "pass")]))))), Z), inp=[1, 2],
+        workers={"f_A1": {"*": [["echo"]]}})
+    add("map-in-par", chain(("P", Parallel([chain(("M", Map(it, ItemsPath="$.items"))), _branch("B", 1)])), Z), inp={"items": [1, 2]}, workers=echo)
+    if tier == "thorough":
+        add("par-3x2", chain(("P", Parallel([_branch("A", 2), _branch("B", 2), _branch("C", 2)])), Z))
+        add("par-4x1", chain(("P", Parallel([_branch(c, 1) for c in "ABCD"])), Z))
+        add("par-in-par", chain(("P", Parallel([chain(("Q", Parallel([_branch("A", 1), _branch("B", 1)]))), _branch("C", 1)])), Z))
+    return out
+
+def fanout_fail_family(tier="quick"):
+    """Parallel/Map shapes x failure assignments x {no handler, Catch, Retry, Retry+Catch} x sibling activity."""
+    out = []
+    Z = ("Z", Pass())
+    RETRY1 = [{"ErrorEquals": ["E1"], "IntervalSeconds": 1, "MaxAttempts": 1, "BackoffRate": 1.0}]
+    CATCH = [{"ErrorEquals": ["States.ALL"], "Next": "Z", "ResultPath": "$.err"}]
+    handlers = {"none": {}, "catch": {"Catch": CATCH}, "retry": {"Retry": RETRY1}, "retrycatch": {"Retry": RETRY1, "Catch": CATCH}}
+    for hname, h in handlers.items():
+        # Parallel [A: Task fails] [B: Task(s) outstanding]
+        for nb in (1, 2):
+            d = chain(("P", Parallel([_branch("A", 1), _branch("B", nb)], **h)), Z)
+            w = _okworkers(d, {"f_A1": {"*": ERR()}})
+            out.append(scenario("parfail-A-task-B%d-%s" % (nb, hname), d, workers=w, family="parfail-task-sibling-%s" % hname))
+        # failing attempt then success on retry
+        if "Retry" in h:
+            d = chain(("P", Parallel([_branch("A", 1), _branch("B", 1)], **h)), Z)
+            w = _okworkers(d, {"f_A1": {"*": [["err", "E1", "boom"], ["ok", "a2"]]}})
+            out.append(scenario("parfail-A-then-ok-%s" % hname, d, workers=w, family="parfail-retry-succeeds-%s" % hname))
+        # sibling in a Wait
+        d = chain(("P", Parallel([_branch("A", 1), _branch("B", 1, "wait")], **h)), Z)
+        out.append(scenario("parfail-A-task-Bwait-%s" % hname, d, workers=_okworkers(d, {"f_A1": {"*": ERR()}}), family="parfail-wait-sibling-%s" % hname))
+        # Fail state branch (no task): sibling Task
+        d = chain(("P", Parallel([chain(("A1", Fail("E1", "failstate"))), _branch("B", 1)], **h)), Z)
+        out.append(scenario("parfail-A-failstate-%s" % hname, d, workers=_okworkers(d), family="parfail-failstate-%s" % hname))
+        # both branches fail (different errors)
+        d = chain(("P", Parallel([_branch("A", 1), _branch("B", 1)], **h)), Z)
+        w = _okworkers(d, {"f_A1": {"*": ERR("E1")}, "f_B1": {"*": ERR("E2")}})
+        sc = scenario("parfail-both-%s" % hname, d, workers=w, family="parfail-both-%s" % hname)
+        sc["expect_any_error"] = ["E1", "E2"]
+        out.append(sc)
+        # Map: one item fails, with and without MaxConcurrency
+        it = chain(("I", Task("fi")))
+        for mc in (0, 1):
+            st = Map(it, MaxConcurrency=mc, **h) if mc else Map(it, **h)
+            d = chain(("M", st), Z)
+            w = {"fi": {"2": ERR(), "*": [["echo"]]}}
+            out.append(scenario("mapfail-item2-mc%d-%s" % (mc, hname), d, workers=w, input=[1, 2, 3], family="mapfail-mc%d-%s" % (mc, hname)))
+    # nested: Parallel[Task A fails || Map(Task)] and Parallel in Parallel
+    it = chain(("I", Task("fi")))
+    d = chain(("P", Parallel([_branch("A", 1), chain(("M", Map(it, ItemsPath="$.items")))])), Z)
+    out.append(scenario("parfail-A-vs-map", d, workers={"f_A1": {"*": ERR()}, "fi": {"*": [["echo"]]}}, input={"items": [1, 2]}, family="parfail-nested-map"))
+    d = chain(("P", Parallel([chain(("Q", Parallel([_branch("A", 1), _branch("B", 1)]))), _branch("C", 1)])), Z)
+    out.append(scenario("parfail-inner", d, workers=_okworkers(d, {"f_A1": {"*": ERR()}}), family="parfail-nested-par"))
+    d = chain(("P", Parallel([chain(("Q", Parallel([_branch("A", 1), _branch("B", 1)], Catch=[{"ErrorEquals": ["States.ALL"], "Next": "QZ", "ResultPath": "$.e"}])), ("QZ", Pass())), _branch("C", 1)])), Z)
+    out.append(scenario("parfail-inner-caught", d, workers=_okworkers(d, {"f_A1": {"*": ERR()}}), family="parfail-nested-par-caught"))
+    return out
